@@ -382,6 +382,14 @@ where
                 let angle = N::RealField::from_usize(k + 1).unwrap();
                 guess - Complex::<N::RealField>::new(root_mean * angle.cos(), root_mean * angle.sin())
             };
+            // Laguerre's iteration can fall into a limit cycle: every tenth iteration take a
+            // fractional step to break it (Numerical Recipes, `laguer`)
+            let a = if (k + 1) % 10 == 0 {
+                let fractions = [0.5, 0.25, 0.75, 0.13, 0.38, 0.62, 0.88, 1.0];
+                a * Complex::<N::RealField>::from_f64(fractions[(k / 10) % 8]).unwrap()
+            } else {
+                a
+            };
             guess -= a;
             k += 1;
         }
